@@ -514,6 +514,7 @@ impl Bundle for Padding {
 #[cfg(jxl_oxide_verif)]
 pub mod verif {
     pub use crate::bit_writer::BitWriter;
+    pub use crate::reconstruct::scan_verif::*;
 
     /// A reconstruction header that contains only `count` APPn marker records, parsed from
     /// `bitstream` with the real `AppMarker::parse` (so exactly the records the parser accepts).
